@@ -99,6 +99,37 @@ def add_path(sym, kinds, absolute):
     sym.check("type-and-value", sym.and_(entry[0] == "sha256", entry[1] == value))
 
 
+# paths as callers spell them (redundant components, names and directories that begin with a dot) and what they normalise to
+WRITTEN_PATHS = [("./.discinfo", ".discinfo"), (".hidden//x", ".hidden/x"), ("images/../.treeinfo", ".treeinfo"), ("a/./b", "a/b"),
+                 ("LiveOS//squashfs.img", "LiveOS/squashfs.img"), ("..data/x", "..data/x"), ("./..a", "..a")]
+
+
+def written_read_back(sym, picks):
+    """checksums recorded by add() for several paths are written with the tree and read back: every normalised path carries exactly
+    the type and value given for it - in the table, in the written file and after the reload"""
+    import C06
+    ti, _ = C06.base_treeinfo(0)
+    ti.checksums.checksums.clear()
+    want = {}
+    for i in picks:
+        spelled, norm = WRITTEN_PATHS[i]
+        t = sym.str("type%d" % i, 4, minlen=1, alphabet="alnum")
+        v = sym.str("value%d" % i, 4, minlen=1, alphabet="hexlower")
+        ti.checksums.add(spelled, t, v)
+        want[norm] = (t, v)
+    sym.check("table-keys", sorted(ti.checksums.checksums.keys()) == sorted(want))
+    text = ti.dumps()
+    sym.cover("written")
+    back = TreeInfo()
+    back.loads(text)
+    sym.cover("reloaded")
+    sym.check("read-back-keys", sorted(back.checksums.checksums.keys()) == sorted(want))
+    for norm in sorted(want):
+        if norm in back.checksums.checksums:
+            g = back.checksums.checksums[norm]
+            sym.check("own-checksum[%s]" % norm, sym.and_(g[0] == want[norm][0], g[1] == want[norm][1]))
+
+
 FILE_NAMES = ["images", "boot.iso", "LiveOS", "x"]
 
 
@@ -262,6 +293,8 @@ def jobs(tier, seed):
         for c in itertools.product(["typed", "bare"], repeat=n):
             if big or n < 3 or (sum(1 for x in c if x == "bare") + seed) % 2 == 1:
                 out.append({"harness": "read_section", "params": {"kinds": list(c), "n_bare": 66 if (big or n == 1) else 42}})
+    for picks in ([0, 1, 2], [3, 4, 5], [6, 0, 4], [1, 5, 6, 2]):
+        out.append({"harness": "written_read_back", "params": {"picks": picks}})
     for c in (["typed", "typed", "typed"], ["bare", "typed", "bare"], ["typed", "bare"]):
         out.append({"harness": "read_section", "params": {"kinds": c, "n_bare": 42, "legacy": True}})
     for e in (False, True):
@@ -270,7 +303,7 @@ def jobs(tier, seed):
 
 
 META = {
-    "expected_covers": {"add_fails": ["called"], "digest_after_rewrite": ["computed"], "digest_of_file": ["computed"], "add_computed": ["computed"], "add_path": ["called"], "read_section": ["read", "accepted"], "image_add_checksum": ["called"]},
+    "expected_covers": {"add_fails": ["called"], "digest_after_rewrite": ["computed"], "digest_of_file": ["computed"], "add_computed": ["computed"], "add_path": ["called"], "read_section": ["read", "accepted"], "written_read_back": ["written", "reloaded"], "image_add_checksum": ["called"]},
     "assumptions": [
         "compute_checksum: the file has a symbolic size up to 3 MiB + 2 (thorough 5 MiB + 2) and unmodelled content; hashlib is uninterpreted - what is decided is that the library "
         "feeds it exactly the bytes [0, size) in order, for every size (both sides of every 1 MiB chunk boundary) and for the listed algorithm names; "
@@ -282,6 +315,7 @@ META = {
         "Checksums.add computing the digest itself (root_dir given): concrete component names, the same shapes of redundant components, the file of symbolic size "
         "<= 1 MiB + 2 lives at the lexically normalised path below the root and nowhere else (so 'x/../' where x does not exist must still resolve)",
         "[checksums] reader: 1-3 entries under concrete option names; 'type:value' with alphanumeric type / hex value, or a bare hex digest of symbolic length 0..66 (quick: 0..42 for 2-3 entries)",
+        "written_read_back: 3-4 concrete paths (redundant components, names beginning with one or two dots) with symbolic type and value, added to a valid tree, written and read back",
         "[checksums] of a version 0.0 tree: relative keys with and without '/os/' components side by side - each keeps its own checksum (absolute legacy keys are exercised by the shipped fixtures, C05)",
     ],
 }
